@@ -20,9 +20,18 @@ use std::io::Write;
 use std::ops::Range;
 use std::pin::Pin;
 use std::task::Poll;
-use std::time::SystemTime;
+use std::time::{Duration, SystemTime};
 
 const MAX_DECIMAL_U64_BYTES: usize = 20; // u64::max_value().to_string().len()
+
+/// Drops the sub-second part: HTTP dates, and thus the `Last-Modified` value a client echoes, have a resolution
+/// of one second, so validators must be compared at that resolution.
+fn truncate_to_second(t: SystemTime) -> SystemTime {
+    match t.duration_since(SystemTime::UNIX_EPOCH) {
+        Ok(d) => t - Duration::from_nanos(u64::from(d.subsec_nanos())),
+        Err(_) => t,
+    }
+}
 
 fn parse_modified_hdrs(
     etag: &Option<HeaderValue>,
@@ -31,11 +40,15 @@ fn parse_modified_hdrs(
 ) -> Result<(bool, bool), &'static str> {
     let precondition_failed = if !etag::any_match(etag, req_hdrs)? {
         true
+    } else if req_hdrs.contains_key(header::IF_MATCH) {
+        // RFC 7232 section 3.4: If-Unmodified-Since is ignored when If-Match is present.
+        false
     } else if let (Some(ref m), Some(since)) =
         (last_modified, req_hdrs.get(header::IF_UNMODIFIED_SINCE))
     {
         const ERR: &str = "Unparseable If-Unmodified-Since";
-        *m > parse_http_date(since.to_str().map_err(|_| ERR)?).map_err(|_| ERR)?
+        truncate_to_second(*m)
+            > parse_http_date(since.to_str().map_err(|_| ERR)?).map_err(|_| ERR)?
     } else {
         false
     };
@@ -56,7 +69,8 @@ fn parse_modified_hdrs(
                 (last_modified, req_hdrs.get(header::IF_MODIFIED_SINCE))
             {
                 const ERR: &str = "Unparseable If-Modified-Since";
-                *m <= parse_http_date(since.to_str().map_err(|_| ERR)?).map_err(|_| ERR)?
+                truncate_to_second(*m)
+                    <= parse_http_date(since.to_str().map_err(|_| ERR)?).map_err(|_| ERR)?
             } else {
                 false
             }
